@@ -312,7 +312,7 @@ where
         match self.project().state.project() {
             StateProj::Completed { io } => io.poll_write(cx, buf),
             StateProj::Expecting { io, .. } => io.poll_write(cx, buf),
-            StateProj::Invalid => panic!("Negotiated: Invalid state"),
+            StateProj::Invalid => Poll::Ready(Err(negotiation_failed())),
         }
     }
 
@@ -320,7 +320,7 @@ where
         match self.project().state.project() {
             StateProj::Completed { io } => io.poll_flush(cx),
             StateProj::Expecting { io, .. } => io.poll_flush(cx),
-            StateProj::Invalid => panic!("Negotiated: Invalid state"),
+            StateProj::Invalid => Poll::Ready(Err(negotiation_failed())),
         }
     }
 
@@ -341,7 +341,7 @@ where
                 }
                 close_poll
             }
-            StateProj::Invalid => panic!("Negotiated: Invalid state"),
+            StateProj::Invalid => Poll::Ready(Err(negotiation_failed())),
         }
     }
 
@@ -353,9 +353,16 @@ where
         match self.project().state.project() {
             StateProj::Completed { io } => io.poll_write_vectored(cx, bufs),
             StateProj::Expecting { io, .. } => io.poll_write_vectored(cx, bufs),
-            StateProj::Invalid => panic!("Negotiated: Invalid state"),
+            StateProj::Invalid => Poll::Ready(Err(negotiation_failed())),
         }
     }
+}
+
+/// The error reported by every I/O operation on a [`Negotiated`] whose optimistic negotiation has
+/// already failed: the failure was reported by the operation that observed it and the underlying
+/// stream is gone.
+fn negotiation_failed() -> io::Error {
+    io::Error::other(NegotiationError::Failed)
 }
 
 /// Error that can happen when negotiating a protocol with the remote.
